@@ -128,8 +128,30 @@ def _eval(c, armed, e, ent, tok, path):
         return meaning(c, armed, w, q, path)
     if k == "o1":
         _, o, a = e
-        inner = 0 if o == 1 else (1 if o == 2 else ent)
+        inner = 0 if (o == 1 or rs.is_role_op(o)) else (1 if o == 2 else ent)
         x = _eval(c, armed, a, inner, tok, path)
+        if rs.is_role_op(o):
+            # role operations, from the definition: the members of household g that hold role r
+            r = o % 10
+            roles = list(getattr(c, "roles", None) or [0] * c.nP)
+            holders = [[i for i in range(c.nP) if c.mem[i] == g and roles[i] == r] for g in range(c.nG)]
+            if o < 20:
+                return [sum(x[i] for i in hs) for hs in holders]
+            if o < 30:                       # the unique holder's value, the default 0 without holder
+                if any(len(hs) > 1 for hs in holders):
+                    raise _Fault("role not unique")
+                return [x[hs[0]] if hs else 0 for hs in holders]
+            if o < 40:
+                return [len(hs) for hs in holders]
+            if o < 50:
+                return [1 if any(x[i] != 0 for i in hs) else 0 for hs in holders]
+            if r == rs.NO_ROLE:                  # reductions without role filter: every member
+                holders = [[i for i in range(c.nP) if c.mem[i] == g] for g in range(c.nG)]
+            if o < 60:
+                return [max(x[i] for i in hs) if hs else 0 for hs in holders]
+            if o < 70:
+                return [min(x[i] for i in hs) if hs else 0 for hs in holders]
+            return [1 if all(x[i] != 0 for i in hs) else 0 for hs in holders]
         if o == 0:
             return [-a_ for a_ in x]
         if o == 1:
@@ -165,6 +187,8 @@ def expected_results(c: rs.SysCase) -> list:
             armed.add(r[1]); out.append("-"); continue
         if r[0] == "disarm":
             armed.discard(r[1]); out.append("-"); continue
+        if r[0] == "badp":
+            out.append("ERR"); continue
         kind, v, tok = r
         try:
             if v >= len(c.vars):
@@ -227,6 +251,8 @@ def generate(rng: random.Random, tier: str):
     for i in range(n):
         kind = "cycle" if rng.random() < 0.15 else "ranked"
         c = rs.gen_case(rng, kind=kind, msl=rng.choice([1, 1, 2, 3]), bad_rate=0.03 if rng.random() < 0.3 else 0.0)
+        if rng.random() < 0.1:      # a request whose period text cannot be parsed, somewhere in the sequence
+            c.reqs.insert(rng.randrange(len(c.reqs) + 1), ("badp", rng.randrange(len(c.vars))))
         out.append(_case(c, (kind, f"vars={len(c.vars)}")))
     return out
 
